@@ -30,6 +30,8 @@ type c16Scenario struct {
 	Files    []wsFile `json:"files"`
 	Faults   []fault  `json:"faults,omitempty"`
 	StopAt   int      `json:"stop_at_action"`
+	StopKind string   `json:"stop_at_kind,omitempty"` // instead of an action number: the StopNth-th action of this kind
+	StopNth  int      `json:"stop_at_nth,omitempty"`
 	Graceful bool     `json:"graceful"`
 	RefActs  int      `json:"reference_actions"`
 	Events   []wEvent `json:"events_tail,omitempty"`
@@ -205,6 +207,25 @@ func runC16(c *Ctx) {
 						sc.StopAt = 1 + rng.Intn(12)
 					}
 				}
+				if !immediateOnly && hashingPhase == 0 && k >= 4 && k%5 == 3 {
+					// an immediate stop that arrives while the sender works through a poll
+					// answer: right after the n-th file was marked done (what was confirmed
+					// before the stop still has to reach the cache file)
+					sc.Graceful = false
+					sc.StopAt = -1
+					sc.StopKind = []string{"cache:done:return", "cache:done", "store:remove:return"}[rng.Intn(3)]
+					sc.StopNth = 1 + rng.Intn(nfiles)
+					// polls that carry many verdicts: everything is sent before the first poll
+					cc := *conf
+					cc.PollDelay = time.Duration(20+rng.Intn(40)) * time.Second
+					cc.PollInterval = time.Duration(10+rng.Intn(20)) * time.Second
+					cc.PollMax = nfiles + rng.Intn(5)
+					cc.Tags = append([]wTag{}, conf.Tags...)
+					cc.Tags[0].Delete = rng.Intn(3) != 0
+					cc.Tags[0].DeleteDelay = 0
+					sc.Conf = &cc
+					sc.Faults = nil
+				}
 				if hashingPhase > 0 && k >= 4 && k%2 == 0 {
 					sc.StopAt = 2 + rng.Intn(hashingPhase)
 					sc.Graceful = rng.Intn(4) == 0
@@ -245,6 +266,7 @@ func c16Run(c *Ctx, idx int, seed int64, sc *c16Scenario, dir string, count bool
 	lastCode := map[string]int{}  // the latest poll verdict per name
 	var s *sender
 	pendingStop := false
+	kindSeen := 0
 	sendStop := func() {
 		if stopped {
 			return
@@ -268,6 +290,12 @@ func c16Run(c *Ctx, idx int, seed int64, sc *c16Scenario, dir string, count bool
 		}
 		if sc.StopAt > 0 && acts == sc.StopAt {
 			sendStop()
+		}
+		if sc.StopKind != "" && kind == sc.StopKind {
+			kindSeen++
+			if kindSeen == sc.StopNth {
+				sendStop()
+			}
 		}
 	}
 	w.onStatus = func(name string, code int) {
@@ -334,6 +362,9 @@ func c16Run(c *Ctx, idx int, seed int64, sc *c16Scenario, dir string, count bool
 	res.Count("virtual_seconds_to_exit", int64(took/time.Second))
 
 	onDisk := w.cacheOnDisk()
+	if os.Getenv("VERIF_C16_DEBUG") != "" && sc.StopKind != "" {
+		fmt.Fprintf(os.Stderr, "C16DEBUG idx=%d kind=%s nth=%d seen=%d stopped=%v delete=%v positive=%v ondisk=%v polls=%v\n", idx, sc.StopKind, sc.StopNth, kindSeen, stopped, sc.Conf.Tags[0].Delete, positive, onDisk, w.log.tail(40))
+	}
 	final := w.finalFiles()
 	nFailedVerdicts := 0
 	for _, cd := range lastCode {
